@@ -85,6 +85,14 @@ def run(tier: str, seed: int) -> CompResult:
         wi.pytest_collection_modifyitems(cfg, [item])  # type: ignore[arg-type]
         lines.append(f"tag {esc(nid)} {esc(want)}")
         impl.append(esc(item._nodeid))
+        # C06 across the two sides (independent of the model): what the worker reports for a marked test must be put, by the
+        # controller's grouping rule, into the work unit of its group (well-formed group names only: F10 lists the others)
+        if "@" not in want and "]" not in want:
+            key = real["loadgroup"](item._nodeid)
+            if key != want:
+                res.violations.append(Violation("C06", "pure.splitscope", f"a test marked xdist_group({want!r}) with id {nid!r} is reported by the worker as "
+                                                f"{item._nodeid!r}, which --dist loadgroup puts into the work unit {key!r}: the group is not kept together",
+                                                "marked-test-not-in-its-group", [lines[-1]], {}))
     # key soundness on pairs (C06a), independent of the model
     base = {"path": "t0.py", "classes": [], "func": "test_1", "param": None, "group": None}
     fixed = [("loadscope", dict(base, param="x::y"), dict(base, param="z")),
